@@ -24,7 +24,7 @@ var R = hx.NewRecorder("C07", "cases = established sessions (both GMSSL ECC suit
 	"non-trivial = a fault that hit a record with genuine records before or after it; distinct by hash of (suite, direction, writes, fault)")
 
 func TestMain(m *testing.M) {
-	for _, k := range []string{"bitflip", "truncate", "extend", "hdr_type", "hdr_version", "hdr_len", "drop", "duplicate", "swap", "replay_other_dir", "replay_preccs", "replay_other_conn", "cut", "pad_valid", "pad_corrupt", "oversize_plain"} {
+	for _, k := range []string{"bitflip", "truncate", "extend", "hdr_type", "hdr_version", "hdr_len", "drop", "duplicate", "swap", "replay_other_dir", "replay_preccs", "replay_other_conn", "inject", "cut", "pad_valid", "pad_corrupt", "oversize_plain"} {
 		R.Require("fault:" + k)
 	}
 	R.Require("short_reading_rand", "write_failure_then_close", "long_session", "padmax:255", "padmax:240", "suite:e013", "suite:e053", "dir:c2s", "dir:s2c", "control_tls12", "padlen_all_16", "bitflip_exhaustive_done")
@@ -139,6 +139,14 @@ func (m *mitm) one(rec []byte) [][]byte {
 		return [][]byte{m.preCCS[m.f.K%len(m.preCCS)], rec}
 	case "replay_other_conn":
 		return [][]byte{m.foreign, rec}
+	case "inject":
+		// a record that never came from the peer, in front of genuine record #Index: lengths around what the suite needs at
+		// least (explicit IV/nonce, MAC or tag, one padding byte), block-aligned and not, down to an empty record
+		l := []int{0, 1, 8, 15, 16, 17, 24, 31, 32, 33, 48, 49, 64, 80, 96, 256}[m.f.K%16]
+		bogus := make([]byte, 5+l)
+		gen.Fill(bogus[5:], uint64(m.f.Bit))
+		bogus[0], bogus[1], bogus[2], bogus[3], bogus[4] = []byte{23, 23, 23, 22, 21}[m.f.Bit%5], rec[1], rec[2], byte(l>>8), byte(l)
+		return [][]byte{bogus, rec}
 	case "cut":
 		m.cut = true
 		return nil
@@ -523,7 +531,7 @@ func writesGen() *rapid.Generator[[][]byte] {
 	})
 }
 
-var faultKinds = []string{"bitflip", "bitflip", "truncate", "extend", "hdr_type", "hdr_version", "hdr_len", "drop", "duplicate", "swap", "replay_other_dir", "replay_preccs", "replay_other_conn", "cut", "pad_valid", "pad_corrupt", "oversize_plain"}
+var faultKinds = []string{"bitflip", "bitflip", "truncate", "extend", "hdr_type", "hdr_version", "hdr_len", "drop", "duplicate", "swap", "replay_other_dir", "replay_preccs", "replay_other_conn", "inject", "inject", "cut", "pad_valid", "pad_corrupt", "oversize_plain"}
 
 func TestC07_Faults(t *testing.T) {
 	n := 0
